@@ -13,6 +13,13 @@ ASSUMPTIONS = [
 ]
 
 
+# spellings whose conversion could differ between float() (genfromtxt) and numpy.float64() + astype (normal engine): missing integer /
+# fraction part, leading zeros, more digits than a double holds, denormals, overflow to inf, underflow to 0, signed zero
+SPECIAL_TOKENS = ["-.5", "1.e3", "1e5", "00012", "0000.5000", "+.5e-3", "1E5", "0.1234567890123456789", "123456789012345678901234567890",
+                  "9007199254740993", "0.30000000000000004", "4.9e-324", "1e-320", "2.2250738585072014e-308", "1.7976931348623157e308",
+                  "1e400", "-1e400", "1e-400", "-0.0", "-0", "3.141592653589793238462643383279", "2.5e-5", "179769313486231580793728971405303415079934132710037826936173778980444968292764750946649017977587207096330286416692887910946555547851940402630657488671505820681908902000708383676273854845817711531764475730270069855571366959622842914819860834936475292719074168444365510704342711559699508093042880177904174497791.9"]
+
+
 def gen_case(rng):
     s = lasgen.basic_spec(rng, ncurves=rng.choice([1, 1, 2, 3, 5, 8]), nrows=rng.choice([1, 1, 2, 3, 7, 25]))
     nc = len(s.rows[0])
@@ -30,6 +37,12 @@ def gen_case(rng):
                 row[j] = s.null
             elif r < 0.2:
                 row[j] = "-" + row[j].lstrip("+-")
+    if rng.random() < 0.35:
+        for row in s.rows:
+            for j in range(len(row)):
+                if rng.random() < 0.3:
+                    row[j] = rng.choice(SPECIAL_TOKENS)
+        s._special = True
     # every row negative somewhere (hyphen on every line) in some files
     if rng.random() < 0.3:
         for row in s.rows:
@@ -65,6 +78,12 @@ def gen_case(rng):
     if rng.random() < 0.15:
         extras.append((0, rng.choice(["", "#first"])))
     s.extra_lines["A"] = extras
+    # trailing padding on data lines (blanks; tabs too unless the tab is the delimiter)
+    if rng.random() < 0.4:
+        for row in s.rows:
+            if rng.random() < 0.6:
+                row[-1] = row[-1] + rng.choice([" ", "   "] if s.dlm == "TAB" else [" ", "   ", "\t", " \t "])
+        s._rpad = True
     return s
 
 
@@ -121,6 +140,8 @@ def run(ctx):
         hist["one_by_one"] += nr == 1 and nc == 1
         hist["declared_ne_columns"] += len(s.curves) != nc
         hist["numpy_path"] += r["numpy"][1] == ["numpy"]
+        hist["special_spellings"] = hist.get("special_spellings", 0) + bool(getattr(s, "_special", False))
+        hist["trailing_padding"] = hist.get("trailing_padding", 0) + bool(getattr(s, "_rpad", False))
     if ctx.build.model_ok:
         mism, err = lib.run_coq_cases("c02", [], rm.RUN_READ, cases, shard=100)
         res.corr_error = err
@@ -130,8 +151,8 @@ def run(ctx):
         res.corr_error = "model not built"
     res.cases = len(cases)
     res.distinct_nontrivial = len(shapes)
-    res.rule = ("files with WRAP NO whose ~A holds r x c plain decimal numbers (ints, fixed, exponent, signed, .5, 5.) with blank/tab "
-                "padding, blank and '#' lines at every position incl. first/last line of the section, ~A last or followed by "
+    res.rule = ("files with WRAP NO whose ~A holds r x c plain decimal numbers (ints, fixed, exponent, signed, .5, 5., -.5, 1.e3, leading "
+                "zeros, long mantissas, denormals, 1e400, 1e-400, -0) with leading and trailing blank/tab padding, blank and '#' lines at every position incl. first/last line of the section, ~A last or followed by "
                 "~P/~O/custom, LF/CRLF, with/without final newline, declared curve count <,=,> column count, NULL cells; each "
                 "file read with both engines; non-trivial = distinct layout class (rows, cols, d-c, ~A inner, extras, eol, final "
                 "newline, extra line last/first) and the engine trace says the numpy path produced the data")
